@@ -222,11 +222,10 @@ func rdnsSx(rdns pkix.RDNSequence) Sx {
 	return out
 }
 
-// parsedOracle: what the library decoding used by names.FromRawDN returns for dn.
+// parsedOracle: what the decoding step of names.FromRawDN (encoding/asn1 underneath) returns for dn.
 func parsedOracle(dn []byte) Sx {
-	var rdns pkix.RDNSequence
-	rest, err := asn1.Unmarshal(dn, &rdns)
-	if err != nil || len(rest) > 0 {
+	rdns, ok := names.VerifParseRawDN(dn)
+	if !ok {
 		return SL{I(1)}
 	}
 	return SL{I(0), rdnsSx(rdns)}
